@@ -30,11 +30,21 @@ fn z() -> T {
     var(3, "$Z")
 }
 
+/// A renaming map in which $X, $Y, $Z already stand for the ids 1, 2, 3.  It is filled by the
+/// engine's own renaming of a dummy term (not through the map's insert method, so that the harness
+/// does not depend on the concrete type behind `VarMap`).
 fn seeded_map() -> VarMap {
     let mut m = VarMap::new();
-    m.insert("$X".into(), 1);
-    m.insert("$Y".into(), 2);
-    m.insert("$Z".into(), 3);
+    let saved = suiron::get_var_id();
+    suiron::set_var_id(0);
+    let dummy = Unifiable::SComplex(vec![
+        Unifiable::Atom("seed".into()),
+        Unifiable::LogicVar { id: 0, name: "$X".into() },
+        Unifiable::LogicVar { id: 0, name: "$Y".into() },
+        Unifiable::LogicVar { id: 0, name: "$Z".into() },
+    ]);
+    let _ = dummy.recreate_variables(&mut m);
+    suiron::set_var_id(saved);
     m
 }
 
